@@ -33,7 +33,12 @@ def hist_job(prop, classes, mix, tier, scale, quick, thorough, label, shards=Non
 def jobs_C01(tier, scale):
     mix = dict(add=45, recip=12, rm=20, rmloops=5, rmvtx=6, clear=4, resize=8)
     q = tier == "quick"
-    return [hist_job("C01", _classes(["DS", "DL"], ["int", "double", "string", "struct"]), mix, tier, scale, 16000, 400000, "directed histories vs set model"),
+    cl = _classes(["DS", "DL"], ["int", "double", "string", "struct", "empty"])
+    mixb = dict(mix, fill=12, dedup=4)
+    return [hist_job("C01", cl, dict(mix, dedup=2, churn=2), tier, scale, 16000, 400000, "directed histories vs set model"),
+            hist_job("C01", cl, mix, tier, scale, 3000, 80000, "histories observed only after every 2nd-5th operation (several mutations between observations)", sparse_pct=100),
+            hist_job("C01", _classes(["DS", "DL"], ["int"]), mixb, tier, scale, 500, 12000, "graphs with 33-70 vertices, `fill` gives degrees up to 90", bign_pct=100, max_size=40),
+            hist_job("C01", _classes(["DS", "DL"], ["int"]), mixb, tier, scale, 400, 10000, "graphs with 129-700 vertices (light observation: lists, counts, degrees, edges(), sampled pairs)", huge_pct=100, max_size=30),
             enum_job("hist", "histmask", dict(prop="C01", classes=_classes(["DS", "DL"], ["int"]), dmin=0, dmax=2 if q else 3, orders=2 if q else 3), tier,
                      "every directed edge set on <=%d vertices, built in several insertion orders, then every single mutator once" % (2 if q else 3))]
 
@@ -41,35 +46,48 @@ def jobs_C01(tier, scale):
 def jobs_C02(tier, scale):
     mix = dict(add=50, rm=22, rmloops=6, rmvtx=9, clear=4, resize=8)
     q = tier == "quick"
-    return [hist_job("C02", _classes(["US", "UL"], ["int", "double", "string", "struct"]), mix, tier, scale, 16000, 400000, "undirected histories vs set model"),
+    cl = _classes(["US", "UL"], ["int", "double", "string", "struct", "empty"])
+    mixb = dict(mix, fill=12, dedup=4)
+    return [hist_job("C02", cl, dict(mix, dedup=2, churn=2), tier, scale, 16000, 400000, "undirected histories vs set model"),
+            hist_job("C02", cl, mix, tier, scale, 3000, 80000, "histories observed only after every 2nd-5th operation", sparse_pct=100),
+            hist_job("C02", _classes(["US", "UL"], ["int"]), mixb, tier, scale, 500, 12000, "graphs with 33-70 vertices, `fill` gives degrees up to 90", bign_pct=100, max_size=40),
+            hist_job("C02", _classes(["US", "UL"], ["int"]), mixb, tier, scale, 400, 10000, "graphs with 129-700 vertices (light observation)", huge_pct=100, max_size=30),
             enum_job("hist", "histmask", dict(prop="C02", classes=_classes(["US", "UL"], ["int"]), umin=0, umax=3 if q else 4, orders=2 if q else 3), tier,
                      "every undirected edge set on <=%d vertices, several insertion orders/orientations, then every single mutator once" % (3 if q else 4))]
 
 
 def jobs_C03(tier, scale):
-    mix = dict(add=38, setl=22, rm=12, rmloops=6, rmvtx=8, clear=5, resize=4, recip=5)
+    mix = dict(add=38, setl=22, rm=12, rmloops=6, rmvtx=8, clear=5, resize=4, recip=5, churn=2)
     q = tier == "quick"
     return [hist_job("C03", _classes(["DL", "UL"], L7), mix, tier, scale, 16000, 400000, "label lifetime histories"),
+            hist_job("C03", _classes(["DL", "UL"], ["int", "string"]), mix, tier, scale, 3000, 80000, "label histories observed only after every 2nd-5th operation", sparse_pct=100),
             enum_job("hist", "histmask", dict(prop="C03", classes="DL:string;UL:struct", dmin=1, dmax=2, umin=1, umax=3 if q else 4, orders=2), tier,
                      "every labelled edge set of the small scopes, then every single mutator once (labels of all pairs read after it)")]
 
 
 def jobs_C04(tier, scale):
-    mix = dict(add1=15, add=25, recip1=3, recip=3, rm=10, rmk=12, setm=15, rmloops=5, rmvtx=6, clear=3, resize=4)
-    return [hist_job("C04", _classes(["DM", "UM"]), mix, tier, scale, 16000, 400000, "multigraph histories")]
+    mix = dict(add1=15, add=25, recip1=3, recip=3, rm=10, rmk=12, setm=15, rmloops=5, rmvtx=6, clear=3, resize=4, churn=2)
+    return [hist_job("C04", _classes(["DM", "UM"]), mix, tier, scale, 16000, 400000, "multigraph histories"),
+            hist_job("C04", _classes(["DM", "UM"]), mix, tier, scale, 3000, 80000, "multigraph histories observed only after every 2nd-5th operation", sparse_pct=100),
+            hist_job("C04", _classes(["DM", "UM"]), dict(mix, fill=8), tier, scale, 500, 12000, "multigraphs with 129-700 vertices, few edges (light observation)", huge_pct=100, max_size=30)]
 
 
 def jobs_C05(tier, scale):
-    mix = dict(add=35, setw=25, rm=12, rmloops=6, rmvtx=8, clear=4, resize=5)
+    mix = dict(add=35, setw=25, rm=12, rmloops=6, rmvtx=8, clear=4, resize=5, churn=2)
     return [hist_job("C05", _classes(["DW", "UW"]), mix, tier, scale, 8000, 200000, "weighted histories, exact weights", mode="exact"),
-            hist_job("C05", _classes(["DW", "UW"]), mix, tier, scale, 8000, 200000, "weighted histories, rounded weights", mode="rounded")]
+            hist_job("C05", _classes(["DW", "UW"]), mix, tier, scale, 8000, 200000, "weighted histories, rounded weights", mode="rounded"),
+            hist_job("C05", _classes(["DW", "UW"]), mix, tier, scale, 3000, 80000, "weighted histories observed only after every 2nd-5th operation", mode="both", sparse_pct=100),
+            hist_job("C05", _classes(["DW", "UW"]), dict(mix, fill=8), tier, scale, 400, 10000, "weighted graphs with 129-700 vertices (light observation)", mode="exact", huge_pct=100, max_size=30)]
 
 
 def jobs_C16(tier, scale):
     mixL = dict(add=55, rm=15, dedup=15, resize=5)
     mixMW = dict(add=85, dedup=8, resize=5)
     return [hist_job("C16", _classes(["DS", "US", "DL", "UL"], ["int", "string"]), mixL, tier, scale, 10000, 250000, "forced duplicates, simple and labelled", force=50, pairvalues=1),
-            hist_job("C16", _classes(["DS", "US", "DL", "UL", "DW", "UW"], ["int"]), dict(add=70, rm=8, dedup=12), tier, scale, 600, 15000, "forced duplicates on graphs with 33-70 vertices", force=50,
+            hist_job("C16", _classes(["DM", "UM"]), dict(add=70, fill=15, dedup=10), tier, scale, 200, 5000,
+                     "forced duplicates on multigraphs with 33-80 vertices, `fill` gives degrees above 64", force=100, pairvalues=1, bign_pct=100, max_size=60, final="dedup"),
+            hist_job("C16", _classes(["DS", "US", "DL", "UL", "DW", "UW"], ["int"]), dict(add=60, fill=15, rm=8, dedup=12), tier, scale, 600, 15000,
+                     "forced duplicates on graphs with 33-80 vertices, `fill` gives degrees above 64", force=50,
                      pairvalues=1, bign_pct=100, max_size=60, final="dedup"),
             hist_job("C16", _classes(["DW", "UW"]), mixMW, tier, scale, 4000, 100000, "forced duplicates, weighted", force=60, pairvalues=1, final="dedup"),
             hist_job("C16", _classes(["DM", "UM"]), mixMW, tier, scale, 3000, 80000, "forced duplicates, multigraphs", force=100, pairvalues=1, final="dedup"),
@@ -80,8 +98,11 @@ def jobs_C16(tier, scale):
 def jobs_C06(tier, scale):
     mix = dict(add=40, add1=8, recip=4, rm=12, rmk=6, setl=10, setm=10, setw=10, rmloops=5, rmvtx=7, clear=4, resize=6)
     c = dict(classes=_classes(["DS", "US", "DM", "UM", "DW", "UW", "DL", "UL"]), mix=_mix(mix))
+    cb = dict(classes=_classes(["DS", "US", "DM", "UM", "DW", "UW", "DL", "UL"], ["int", "string"]), mix=_mix(dict(mix, fill=25)), bign_pct="100")
     return [dict(engine="pbt", executor="eq", config="san", gen="eq", cfg=c, cases=_n(tier, 16000, 400000, scale), shards=8 if tier == "quick" else 16,
-                 max_size=40 if tier == "quick" else 70, label="pairs of histories: rebuilt / one difference / independent / copies")]
+                 max_size=40 if tier == "quick" else 70, label="pairs of histories: rebuilt / one difference / one edge moved / independent / copies"),
+            dict(engine="pbt", executor="eq", config="san", gen="eq", cfg=cb, cases=_n(tier, 400, 10000, scale), shards=8 if tier == "quick" else 16,
+                 max_size=25, label="the same on graphs with 66-80 vertices and degrees above 64")]
 
 
 def jobs_C07(tier, scale):
@@ -107,10 +128,13 @@ def jobs_C08(tier, scale):
     cl = _classes(ALL8, ["int", "string"])
     pads = "0:0;1:0;0:2;2:1"
     sparse = graph_job("C08", "iter", cl, tier, scale, 3000, 80000, "generated sparse graphs up to 14 vertices with isolated runs at both ends", nmax=14, pads=1, max_size=40)
+    hmix = dict(add=40, add1=5, recip=4, rm=18, rmk=5, setl=4, setm=5, setw=4, rmloops=4, rmvtx=5, clear=3, resize=6)
+    hist = hist_job("C08", cl, hmix, tier, scale, 3000, 80000,
+                    "histories: edges()/vertex iteration and everything built on it observed after every 1st-5th mutation (an iteration must not depend on an earlier one)", sparse_pct=70)
     if tier == "quick":
         return [enum_job("iter", "graphs", dict(prop="C08", classes=cl, dmin=0, dmax=3, umin=0, umax=4, orders=3, pads=pads, writers_n=2), tier,
-                         "every directed graph on 0..3 and undirected on 0..4 vertices x 3 insertion orders x 4 isolated-vertex paddings, 10 class/label configs"), sparse]
-    return [sparse, enum_job("iter", "graphs", dict(prop="C08", classes=cl, dmin=0, dmax=3, umin=0, umax=4, orders=4, pads=pads, writers_n=3), tier, "small scopes, all paddings"),
+                         "every directed graph on 0..3 and undirected on 0..4 vertices x 3 insertion orders x 4 isolated-vertex paddings, 10 class/label configs"), sparse, hist]
+    return [sparse, hist, enum_job("iter", "graphs", dict(prop="C08", classes=cl, dmin=0, dmax=3, umin=0, umax=4, orders=4, pads=pads, writers_n=3), tier, "small scopes, all paddings"),
             enum_job("iter", "graphs", dict(prop="C08", classes=_classes(["DS", "DL", "DM", "DW"], ["int"]), dmin=4, dmax=4, orders=2, pads="0:0;1:1", writers_n=-1), tier,
                      "every directed graph on 4 vertices (65536) x 2 orders x 2 paddings x 4 classes"),
             enum_job("iter", "graphs", dict(prop="C08", classes=_classes(["US", "UL", "UM", "UW"], ["int"]), umin=5, umax=5, orders=2, pads="0:0;1:1", writers_n=-1), tier,
@@ -126,7 +150,10 @@ def graph_job(prop, executor, classes, tier, scale, quick, thorough, label, conf
 
 def jobs_C09(tier, scale):
     cl = _classes(ALL8)
-    jobs = [graph_job("C09", "conv", cl, tier, scale, 12000, 300000, "generated graphs (loops, reciprocal pairs with different labels, repeated pairs, isolated vertices)", nmax=9, pads=1),
+    hmix = dict(add=40, recip=5, rm=10, setl=15, rmvtx=4, rmloops=2, clear=2, resize=4, xrev=10, xconv=8)
+    jobs = [hist_job("C09", _classes(["DS", "US", "DL", "UL"], ["int", "string", "struct"]), hmix, tier, scale, 4000, 100000,
+                     "histories with reversals and conversions between the mutations (a conversion computed earlier must not influence a later one)"),
+            graph_job("C09", "conv", cl, tier, scale, 12000, 300000, "generated graphs (loops, reciprocal pairs with different labels, repeated pairs, isolated vertices)", nmax=9, pads=1),
             enum_job("conv", "graphs", dict(prop="C09", classes=_classes(["DS", "DL", "DM", "DW"], ["int", "struct"]), dmin=0, dmax=2 if tier == "quick" else 3, orders=2, pads="0:0;1:1"), tier,
                      "every directed graph on <=%d vertices" % (2 if tier == "quick" else 3)),
             enum_job("conv", "graphs", dict(prop="C09", classes=_classes(["US", "UL", "UM", "UW"], ["int", "struct"]), umin=0, umax=3 if tier == "quick" else 4, orders=2, pads="0:0;1:1"), tier,
@@ -138,6 +165,8 @@ def jobs_C10(tier, scale):
     cl = _classes(["DS", "US", "DL", "UL"], ["int", "string"])
     q = tier == "quick"
     return [graph_job("C10", "sub", cl, tier, scale, 4000, 100000, "generated graphs, all 2^n subsets for n<=6, generated subsets above", nmax=9, subsets=6, max_size=50),
+            graph_job("C10", "sub", cl, tier, scale, 80, 2000, "graphs with 66-100 vertices and vertices of degree above 64; subsets given as index ranges with a stride", big_pct=100, subsets=4,
+                      max_size=50),
             enum_job("sub", "graphs", dict(prop="C10", classes=_classes(["DS", "DL"], ["int"]), dmin=0, dmax=3 if q else 3, orders=2 if q else 3), tier, "every directed graph on <=3 vertices x every subset"),
             enum_job("sub", "graphs", dict(prop="C10", classes=_classes(["US", "UL"], ["int"]), umin=0, umax=3 if q else 4, orders=2), tier,
                      "every undirected graph on <=%d vertices x every subset" % (3 if q else 4))]
@@ -146,9 +175,12 @@ def jobs_C10(tier, scale):
 def jobs_C11(tier, scale):
     q = tier == "quick"
     cl = _classes(["DS", "US", "DL", "UL"], ["int"])
-    jobs = [graph_job("C11", "bfs", cl, tier, scale, 4000, 150000, "generated graphs n<=10 (cycles through the source, loops, components, ties)", nmax=10, max_size=60),
+    jobs = [graph_job("C11", "bfs", cl, tier, scale, 4000, 150000, "generated graphs n<=10 (cycles through the source, loops, components, ties); 2.4% of the cases repeat a search after 2^8-1 or 2^16-1 other searches", nmax=10, max_size=60,
+                       wrap_permille=24),
             graph_job("C11", "bfs", cl, tier, scale, 1000, 30000, "generated graphs whose neighbour lists hold repeated entries (forced duplicates): predecessor lists and path sets still without repeats",
                       nmax=8, forced=15, max_size=60),
+            graph_job("C11", "bfs", cl, tier, scale, 1200, 30000, "each case in a fresh process: the same edge list searched as three classes (other directedness, other label type) in a generated order",
+                      nmax=8, max_size=60, fresh=1),
             enum_job("bfs", "graphs", dict(prop="C11", classes="DS:none", dmin=0, dmax=3, orders=2), tier, "every directed graph on <=3 vertices, all sources and destinations"),
             enum_job("bfs", "graphs", dict(prop="C11", classes="US:none", umin=0, umax=4, orders=2), tier, "every undirected graph on <=4 vertices, all sources and destinations")]
     if not q:
@@ -160,11 +192,14 @@ def jobs_C11(tier, scale):
 def jobs_C12(tier, scale):
     q = tier == "quick"
     cl = _classes(["DW", "UW"])
-    jobs = [graph_job("C12", "dij", cl, tier, scale, 4000, 100000, "generated graphs n<=12, integer weights 0..16 (exact)", nmax=12, xmax=17, extra="wmode int", max_size=60),
+    jobs = [graph_job("C12", "dij", cl, tier, scale, 4000, 100000, "generated graphs n<=12, integer weights 0..16 (exact); 2.4% of the cases repeat a search after 2^8-1 or 2^16-1 other searches", nmax=12, xmax=17,
+                      extra="wmode int", max_size=60, wrap_permille=24),
             graph_job("C12", "dij", cl, tier, scale, 2000, 60000, "generated graphs, weights k/8 (exact)", nmax=10, xmax=4096, extra="wmode frac", max_size=60),
             graph_job("C12", "dij", cl, tier, scale, 1500, 40000, "generated graphs, weights k*2^-60 (exact, all below machine epsilon)", nmax=10, xmax=17, extra="wmode tiny", max_size=60),
             graph_job("C12", "dij", cl, tier, scale, 1000, 30000, "generated graphs, weights k*2^40 (exact)", nmax=10, xmax=17, extra="wmode huge", max_size=60),
             graph_job("C12", "dij", cl, tier, scale, 2000, 60000, "generated graphs, weights k/7 (rounded, tolerance 2n*2^-52*max(1,ref))", nmax=10, xmax=600, extra="wmode rounded", max_size=60),
+            graph_job("C12", "dij", cl, tier, scale, 800, 20000, "each case in a fresh process: the same edge list searched as directed and as undirected weighted graph in a generated order",
+                      nmax=8, xmax=17, extra="wmode int", max_size=60, fresh=1),
             enum_job("dij", "w4", dict(prop="C12", classes="DW:none", dmin=0, dmax=2, orders=2, extra="wmode abs012"), tier, "directed n<=2 x weights {absent,0,1,2}, all sources"),
             enum_job("dij", "w4", dict(prop="C12", classes="UW:none", umin=0, umax=3, orders=2, extra="wmode abs012"), tier, "undirected n<=3 x weights {absent,0,1,2}, all sources")]
     if not q:
@@ -182,7 +217,7 @@ def jobs_C19(tier, scale):
             fam("dij", _classes(["DW", "UW"]), 600, 12000, "the same families with all-zero, all-one and varying weights: Dijkstra scans <= V+E+1"),
             fam("dij", _classes(["DW", "UW"]), 300, 6000, "hub improved m times with fan-out L, non-dyadic weights (stale queue entries must relax nothing)", families="fanin"),
             graph_job("C19", "dij", _classes(["DW", "UW"]), tier, scale, 800, 20000, "random weighted graphs, weights k/7 (not exactly representable)", nmax=30, xmax=40, extra="wmode rounded", max_size=100),
-            graph_job("C19", "bfs", _classes(["DS", "US"]), tier, scale, 1500, 40000, "random graphs n<=40", nmax=40, max_size=100),
+            graph_job("C19", "bfs", _classes(["DS", "US"]), tier, scale, 1500, 40000, "random graphs n<=40; pair searches before every counted search; 2.4% of the cases count after 2^8-1 or 2^16-1 other searches", nmax=40, max_size=100, wrap_permille=24),
             graph_job("C19", "dij", _classes(["DW", "UW"]), tier, scale, 1500, 40000, "random weighted graphs n<=30, weights 0..4 (ties and zero-weight cycles)", nmax=30, xmax=5, extra="wmode int", max_size=100)] + (
         [] if tier == "quick" else [fuzz_job("dij", "wgraph", "C19", tier, scale, 0, 6000000, "guided search: libFuzzer climbs scans/(V+E+1) through __libfuzzer_extra_counters", max_len=300)])
 
@@ -203,6 +238,8 @@ BIN_CLASSES = "DS:none;US:none;" + ";".join("DL:%s;UL:%s" % (l, l) for l in BIN_
 
 def jobs_C14(tier, scale):
     return [graph_job("C14", "bin", BIN_CLASSES, tier, scale, 8000, 200000, "round trip + byte layout + hand-made files (11 label types x directed/undirected)", nmax=12, extra="mode roundtrip", max_size=60),
+            graph_job("C14", "bin", BIN_CLASSES, tier, scale, 66, 660, "files of 8000-14000 records (140-170 vertices, each joined to the next 60-80)", nmin=140, nmax=170,
+                      extra="mode roundtrip;dense_auto 1", max_size=10),
             graph_job("C14", "bin", BIN_CLASSES, tier, scale, 220, 2200, "unopenable path: every loader and writer throws std::runtime_error", nmax=3, extra="mode badpath", max_size=10),
             graph_job("C14", "bin", BIN_CLASSES, tier, scale, 1500, 40000, "vertex indices with 0xFF / 0x00 bytes in every position (255, 256, 65535, 65536, ... 70000)", nmin=22, nmax=22, extra="mode bigindex", max_size=30)]
 
@@ -243,6 +280,10 @@ def c17_streams(tier, scale):
     hist("C05", "C05", _classes(["DW", "UW"]), dict(add=35, setw=25, rm=12, rmloops=6, rmvtx=8, clear=4, resize=5), n(1200, 20000), mode="exact")
     hist("C16", "C16", _classes(["DS", "US", "DL", "UL", "DW", "UW"], ["int", "string"]), dict(add=55, rm=15, dedup=15, resize=5), n(1200, 20000), force=50, pairvalues=1)
     hist("C16m", "C16", _classes(["DM", "UM"]), dict(add=85, dedup=8, resize=5), n(600, 10000), force=100, pairvalues=1, final="dedup")
+    # any valid call sequence: forced duplicates followed by every mutator, where no property fixes the outcome; nothing is compared with a model,
+    # the sanitizers and the agreement of the observations across builds are the oracle
+    hist("anyseq", "C17", _classes(ALL8, ["int", "string"]),
+         dict(add=40, add1=6, recip=4, rm=12, rmk=6, setl=8, setm=8, setw=8, rmloops=4, rmvtx=6, clear=2, resize=4, dedup=4, churn=1), n(2400, 40000), force=35, safety_only=1)
     st.append(dict(name="C06", executor="eq", gen="eq", cfg=jobs_C06(tier, scale)[0]["cfg"], cases=n(1200, 20000), max_size=35))
     st.append(dict(name="C11", executor="bfs", gen="graph", cfg=dict(prop="C11", classes=_classes(["DS", "US", "DL", "UL"], ["int"]), nmax="9"), cases=n(800, 15000), max_size=50))
     st.append(dict(name="C12", executor="dij", gen="graph", cfg=dict(prop="C12", classes=_classes(["DW", "UW"]), nmax="12", xmax="17", extra="wmode int"), cases=n(800, 15000), max_size=50))
